@@ -189,13 +189,15 @@ func (l *localFS) Put(ctx context.Context, key string, source io.Reader, exclusi
 					zap.Error(err),
 				)
 			}
-			err = target.Close()
-			if err != nil {
+			// the outcome of the write is its first error: closing the file must not hide a failed copy
+			if erc := target.Close(); erc != nil {
 				l.l.Error("write error, retrying",
 					zap.String("key", key),
-					zap.Error(err),
+					zap.Error(erc),
 				)
-
+				if err == nil {
+					err = erc
+				}
 			}
 
 			return err
@@ -219,12 +221,14 @@ func (l *localFS) Put(ctx context.Context, key string, source io.Reader, exclusi
 				)
 			}
 
-			err = target.Close()
-			if err != nil {
+			if erc := target.Close(); erc != nil {
 				l.l.Error("write error, retrying",
 					zap.String("key", key),
-					zap.Error(err),
+					zap.Error(erc),
 				)
+				if err == nil {
+					err = erc
+				}
 			}
 
 			return err
